@@ -1,9 +1,8 @@
 (** * The intersection kernel does not depend on the order of its two segments (C16, last
     clause), exact instance, non-parallel segments: [LNone] for one order iff for the other,
-    and the reported points of the two orders are equal rationals.  (For parallel segments the
-    two orders agree on disjointness by [intersection_collinear]; the points reported for an
-    overlap are the ends of the common part measured along the FIRST segment, which is the
-    "documented role" of the argument order.) *)
+    and the reported points of the two orders are equal rationals.  (Parallel and collinear
+    segments: [IntersectSymCol] — the two orders report the same two ends of the common part,
+    possibly in the other order.) *)
 From Coq Require Import QArith Lqa.
 From GB Require Import Num NumQ Intersect IntersectProofs.
 Local Open Scope Q_scope.
